@@ -1301,3 +1301,107 @@ func runROOTDIRTY(c *Ctx) {
 		}
 	}
 }
+
+// ---- LOADLIMIT ------------------------------------------------------------------------
+
+func init() {
+	Register(&Rule{ID: "LOADLIMIT", Props: []string{"C01", "C05"}, Min: 0,
+		Doc: "the writer puts no limit on how many entries a node holds (an over-full node is legal: keys of one layer between two higher keys all live in one node), so the load path imposes none either: no comparison of the number of keys, values or links of a loaded node with anything but another of its own list lengths (± a constant) or a constant of at most 2 guards an error return or a panic.",
+		Run: func(c *Ctx) {
+			P := c.P
+			set := loadPathFuncs(c)
+			if lm := c.MustFunc("(*Root).LoadMast"); lm != nil {
+				for f := range c.Facts.Reach(lm) {
+					set[f] = true
+				}
+			}
+			n := 0
+			for _, fn := range P.Funcs {
+				if !set[fn] || c.Facts.debugOnlyFunc(fn) != "" {
+					continue
+				}
+				ei := ir.ErrorResultIndex(fn.Signature)
+				for _, b := range fn.Blocks {
+					if ir.IsDead(b) || len(b.Instrs) == 0 {
+						continue
+					}
+					iff, ok := b.Instrs[len(b.Instrs)-1].(*ssa.If)
+					if !ok {
+						continue
+					}
+					bin, ok := iff.Cond.(*ssa.BinOp)
+					if !ok {
+						continue
+					}
+					switch bin.Op {
+					case token.LSS, token.LEQ, token.GTR, token.GEQ:
+					default:
+						continue
+					}
+					var other ssa.Value
+					if _, _, ok := lenOfNodeSlice(bin.X); ok {
+						other = bin.Y
+					} else if _, _, ok := lenOfNodeSlice(bin.Y); ok {
+						other = bin.X
+					} else {
+						continue
+					}
+					// admissible right-hand sides
+					if k, isK := ir.ConstInt(other); isK && k <= 2 {
+						continue
+					}
+					if _, _, ok := lenOfNodeSlice(other); ok {
+						continue
+					}
+					if bo, ok := ir.ResolveCell(other).(*ssa.BinOp); ok && (bo.Op == token.ADD || bo.Op == token.SUB) {
+						if _, isK := ir.ConstInt(bo.Y); isK {
+							if _, _, ok := lenOfNodeSlice(bo.X); ok {
+								continue
+							}
+						}
+					}
+					// an index variable compared with a length (loops, searches) is not a limit: the other side must
+					// not be derived from a position
+					if _, _, isLi := liPlusK(other); isLi {
+						continue
+					}
+					if _, isPhi := ir.ResolveCell(other).(*ssa.Phi); isPhi {
+						continue // loop counters
+					}
+					if _, isParam := ir.ResolveCell(other).(*ssa.Parameter); isParam {
+						continue // an index handed in
+					}
+					if _, isEx := ir.ResolveCell(other).(*ssa.Extract); isEx {
+						continue // a position returned by a search
+					}
+					// does an outcome fail?
+					fails := func(sb *ssa.BasicBlock) bool {
+						if ir.PanicOnly(sb) {
+							return true
+						}
+						for k := 0; k < 4; k++ {
+							if len(sb.Instrs) > 0 {
+								if r, ok := sb.Instrs[len(sb.Instrs)-1].(*ssa.Return); ok {
+									return ei >= 0 && !ir.IsNilConst(r.Results[ei])
+								}
+							}
+							if len(sb.Succs) != 1 {
+								return false
+							}
+							sb = sb.Succs[0]
+						}
+						return false
+					}
+					if !fails(b.Succs[0]) && !fails(b.Succs[1]) {
+						continue
+					}
+					n++
+					c.Violation(fn, P.InstrPos(bin), "load path limits the size of a node",
+						"a loaded node's number of entries is compared with "+pathDesc(ir.Sym(other))+" and one outcome fails: nodes are not bounded by the branch factor (or anything else) when they are written, so a version that was just persisted can become unreadable")
+				}
+			}
+			if n == 0 {
+				c.OK("-", "no size limit on loaded nodes", "scan of the load path", false)
+			}
+		}})
+}
